@@ -382,8 +382,11 @@ fn check_c07_closed_loop(cfg: &ChainCfg, h: &crate::chain::History, out: &mut Ru
     let acc: Vec<f64> = h.draws[nt..].iter().filter_map(|d| d.f64("mean_tree_accept")).collect();
     let mean = acc.iter().sum::<f64>() / acc.len() as f64;
     out.probe("closed_loop_runs", 1);
-    // wide band: it only has to separate "steers to the target" from "steers away"
-    if mean < ss.target_accept - 0.25 || mean > (ss.target_accept + 0.17).min(0.999) {
+    // wide band: it only has to separate "steers to the target" from "steers away"; the mean over a few
+    // hundred draws has Monte-Carlo error itself (3 standard errors of slack, i.i.d. approximation)
+    let sd = (acc.iter().map(|a| (a - mean) * (a - mean)).sum::<f64>() / (acc.len() as f64 - 1.0).max(1.0)).sqrt();
+    let slack = 3.0 * sd / (acc.len() as f64).sqrt();
+    if mean < ss.target_accept - 0.25 - slack || mean > (ss.target_accept + 0.17 + slack).min(0.999) {
         out.violate(
             format!("C07/closed_loop_acceptance/{}", cfg.preset.name()),
             format!("post-warmup mean acceptance {mean:.3} over {} draws, target {}", acc.len(), ss.target_accept),
